@@ -207,7 +207,7 @@ class C05(SessionProp):
 T_PUBWIN = G.Table([
     (20, G.o_publish), (6, G.o_puback), (6, G.o_pubrec), (6, G.o_pubcomp), (4, G.o_ack_good), (4, G.o_window),
     (2, G.o_fire), (1, G.o_advance_small), (2, G.o_lose_reconnect_persist), (1, G.o_lose_reconnect_clean),
-    (1, G.o_reconnect_noack), (1, G.o_connack_ok), (1, G.o_settle),
+    (1, G.o_reconnect_noack), (1, G.o_connack_ok), (1, G.o_settle), (2, G.o_resume_with_publish),
 ])
 
 
@@ -285,6 +285,7 @@ T_MIX = G.Table([
     (3, G.o_inpub), (2, G.o_inrel), (3, G.o_fire), (3, G.o_advance), (2, G.o_window), (1, G.o_timeout),
     (1, G.o_bandwidth), (2, G.o_lose), (3, G.o_reconnect), (1, G.o_reconnect_noack), (2, G.o_connack),
     (2, G.o_disconnect), (1, G.o_pingresp), (1, G.o_handlers), (1, G.o_settle), (1, G.o_connect),
+    (2, G.o_resume_with_publish),
 ])
 
 
@@ -426,7 +427,7 @@ def o_retrytail(ad, a, b, c):
 T_RETRY = G.Table([
     (8, G.o_publish_q12), (4, G.o_subscribe), (4, G.o_unsubscribe), (12, G.o_fire_many), (3, G.o_advance),
     (4, G.o_pubrec), (2, G.o_ack_good), (2, G.o_timeout), (2, G.o_bandwidth), (1, G.o_window),
-    (1, G.o_lose_reconnect_persist), (1, o_retrytail), (1, G.o_publish),
+    (1, G.o_lose_reconnect_persist), (1, o_retrytail), (1, G.o_publish), (2, G.o_resume_with_publish),
 ])
 
 
@@ -614,6 +615,7 @@ T_PERS = G.Table([
     (12, G.o_publish_q12), (3, G.o_publish_q0), (5, G.o_pubrec), (3, G.o_puback), (3, G.o_pubcomp), (3, G.o_ack_good),
     (3, G.o_fire), (2, G.o_window), (1, G.o_advance_small), (3, G.o_lose_reconnect_persist), (1, G.o_lose_reconnect_clean),
     (2, G.o_reconnect_noack), (2, G.o_lose), (2, G.o_connack_ok), (1, G.o_build), (1, G.o_subscribe),
+    (3, G.o_resume_with_publish),
 ])
 POST_PERS = [
     [("build", 0), ("handlers", 0, 7), ("connect", 0, 0, 0, 0), ("rx", 0, "CONNACK", 0, 1), ("publish", 0, 1), ("settle", 0), ("idle", 300.0)],
@@ -742,7 +744,7 @@ def _norm_marker(x, ren):
     return x
 
 
-def address_view(w, a):
+def address_view(w, a, skip_rids=()):
     """the observation log restricted to one address, ids / request numbers / markers renamed by
     order of first appearance; timers are compared separately"""
     maps = {}
@@ -755,6 +757,8 @@ def address_view(w, a):
     out = []
     for e in w.log:
         if e.c is None or w.conns[e.c].a != a:
+            continue
+        if skip_rids and e.ctx and e.ctx[0] == "api" and e.ctx[-1] in skip_rids:
             continue
         k = e.k
         if k == "write":
@@ -1285,6 +1289,431 @@ class C03(SessionProp):
         return res
 
 
+
+# ====================================================================== C14
+
+def rude_cfg(profiles=(1, 2, 3)):
+    return st.fixed_dictionaries({
+        "profile": st.sampled_from(profiles), "version": st.sampled_from([4, 4, 3]),
+        "jitter": st.sampled_from([0.25, 0.0, 0.999]), "rude": st.just(True), "use_lost": st.just(True),
+    })
+
+
+def o_rude_packet(ad, a, b, c):
+    k = ["CONNACK", "PINGRESP", "SUBACK", "UNSUBACK", "PUBLISH", "PUBREL", "PUBACK", "PUBREC", "PUBCOMP"][a % 9]
+    if k == "CONNACK":
+        return [("rx", ad, "CONNACK", [0, 0, 5, 2][b % 4], c & 1)]
+    if k == "PINGRESP":
+        return [("rx", ad, "PINGRESP")]
+    if k == "PUBLISH":
+        return [("rx", ad, "PUBLISH", b % 3, c & 0x0f, c >> 4)]
+    return [("rx", ad, k, [4, 0, 3][b % 3], c, 0)]
+
+
+T_PROBE = G.Table([
+    (6, G.o_publish), (4, G.o_subscribe), (3, G.o_unsubscribe), (4, G.o_connect), (3, G.o_disconnect), (12, o_rude_packet),
+    (4, G.o_ack_good), (3, G.o_connack), (3, G.o_lose), (3, G.o_build), (2, G.o_reconnect), (1, G.o_reconnect_noack),
+    (2, G.o_fire), (2, G.o_advance), (1, G.o_handlers), (1, G.o_window),
+])
+
+
+class C14(SessionProp):
+    id = "C14"
+    monitor = staticmethod(M.mon_c14)
+    table = T_PROBE
+    max_words = 35
+    pre_kwargs = dict(connack=(True, False, True))
+    rule = ("Exhaustive matrix: 3 profiles x {idle (new), connecting, connected, connected with requests pending, "
+            "idle after loss, idle after a refused CONNACK} x {connect, disconnect, publish q0/q1/q2, subscribe, "
+            "unsubscribe} and x the nine broker packet types (a 'rude' broker that sends anything in any state); "
+            "generated: the same probes at every point of random histories. Oracle (table from the statement): an "
+            "operation allowed in that state and profile is not refused with MQTTStateError and takes effect; a "
+            "forbidden one fails with MQTTStateError (raised by disconnect()), writes nothing, changes neither "
+            "protocol.state nor the pending timers nor any other Deferred; a broker packet that does not belong to "
+            "the state/profile has no effect at all. Non-trivial = any cell other than connected publisher x "
+            "subscribe/unsubscribe (what the suite has); distinct = distinct case hash.")
+
+    def strategy(self, tier):
+        tb = self.table
+
+        def mk(cfg, pre, ws):
+            return (cfg, G.preamble(cfg, pre) + tb.decode(ws))
+        return st.builds(mk, rude_cfg(), G.pre_strategy(**self.pre_kwargs), G.words(self.max_words if tier == "quick" else 70))
+
+    STATES = [
+        ("idle_new", [("build", 0), ("handlers", 0, 7)]),
+        ("connecting", [("build", 0), ("handlers", 0, 7), ("connect", 0, 0, 1, 0)]),
+        ("connected", [("build", 0), ("handlers", 0, 7), ("connect", 0, 7, 1, 0), ("rx", 0, "CONNACK", 0, 0)]),
+        ("connected_pending", [("build", 0), ("handlers", 0, 7), ("window", 0, 4), ("connect", 0, 0, 0, 0), ("rx", 0, "CONNACK", 0, 0),
+                               ("publish", 0, 1), ("publish", 0, 2), ("subscribe", 0, 0, 1, 1), ("unsubscribe", 0, 0, 1, 0),
+                               ("rx", 0, "PUBLISH", 2, 0, 1)]),
+        ("idle_lost", [("build", 0), ("handlers", 0, 7), ("connect", 0, 0, 1, 0), ("rx", 0, "CONNACK", 0, 0), ("publish", 0, 1), ("lose", 0, 1)]),
+        ("idle_refused", [("build", 0), ("handlers", 0, 7), ("connect", 0, 0, 1, 0), ("rx", 0, "CONNACK", 5, 0)]),
+    ]
+    PROBES = [
+        [("connect", 0, 0, 1, 0)], [("connect", 0, 7, 0, 7)], [("disconnect", 0)], [("publish", 0, 0)], [("publish", 0, 1)],
+        [("publish", 0, 2)], [("subscribe", 0, 0, 1, 1)], [("subscribe", 0, 2, 2, 6)], [("unsubscribe", 0, 0, 1, 0)],
+        [("unsubscribe", 0, 1, 2, 0)],
+        [("rx", 0, "CONNACK", 0, 0)], [("rx", 0, "CONNACK", 5, 1)], [("rx", 0, "PINGRESP")], [("rx", 0, "SUBACK", 4, 0, 0)],
+        [("rx", 0, "SUBACK", 0, 0, 0)], [("rx", 0, "UNSUBACK", 4, 0, 0)], [("rx", 0, "UNSUBACK", 0, 0, 0)],
+        [("rx", 0, "PUBLISH", 0, 0, 0)], [("rx", 0, "PUBLISH", 1, 0, 0)], [("rx", 0, "PUBLISH", 2, 0, 0)], [("rx", 0, "PUBREL", 4, 0, 0)],
+        [("rx", 0, "PUBREL", 0, 0, 0)], [("rx", 0, "PUBACK", 4, 0, 0)], [("rx", 0, "PUBACK", 0, 0, 0)], [("rx", 0, "PUBREC", 4, 0, 0)],
+        [("rx", 0, "PUBREC", 0, 0, 0)], [("rx", 0, "PUBCOMP", 4, 0, 0)], [("rx", 0, "PUBCOMP", 5, 0, 0)],
+    ]
+
+    def exhaustive_specs(self, tier, seed):
+        return [("matrix", p, v) for p in (1, 2, 3) for v in (3, 4)]
+
+    def run_exhaustive(self, spec, res):
+        _, p, v = spec
+        cfg = dict(profile=p, version=v, jitter=0.25, rude=True, use_lost=True)
+        n = 0
+        for name, setup in self.STATES:
+            for pr in self.PROBES:
+                for second in ([], self.PROBES[(n * 7) % len(self.PROBES)]):
+                    ops = list(setup) + list(pr) + list(second) + [("advance", 5)]
+                    case = (cfg, ops)
+                    res.add("exhaustive:matrix", case, self.check_case(case))
+                    n += 1
+        res.exhaustive["matrix/profile%d/v%d" % (p, v)] = n
+        return res
+
+
+# ====================================================================== C20
+
+LONG = 65535
+
+
+def _s(unit, n):
+    return ["@str", unit, n]
+
+
+C20_SETTERS = [
+    ("setWindowSize", [1], {}, "accept"), ("setWindowSize", [2], {}, "accept"), ("setWindowSize", [16], {}, "accept"),
+    ("setWindowSize", [0], {}, "reject"), ("setWindowSize", [17], {}, "reject"), ("setWindowSize", [-1], {}, "reject"),
+    ("setWindowSize", [1000], {}, "reject"), ("setWindowSize", [["@none"]], {}, "reject_any"), ("setWindowSize", ["3"], {}, "reject_any"),
+    ("setTimeout", [1], {}, "accept"), ("setTimeout", [4], {}, "accept"), ("setTimeout", [1024], {}, "accept"),
+    ("setTimeout", [0], {}, "reject"), ("setTimeout", [1025], {}, "reject"), ("setTimeout", [-1], {}, "reject"),
+    ("setTimeout", [["@none"]], {}, "reject_any"),
+    ("setBandwith", [["@float", 1e-9]], {}, "accept"), ("setBandwith", [1, 1], {}, "accept"), ("setBandwith", [["@float", 1e12], 2], {}, "accept"),
+    ("setBandwith", [10000], {"factor": 4}, "accept"),
+    ("setBandwith", [0], {}, "reject"), ("setBandwith", [-1], {}, "reject"), ("setBandwith", [1, 0], {}, "reject"),
+    ("setBandwith", [1, -1], {}, "reject"), ("setBandwith", [["@float", -0.5], 2], {}, "reject"), ("setBandwith", [100], {"factor": -2}, "reject"),
+]
+
+
+def _conn(expect, **kw):
+    base = {"clientId": "c20", "keepalive": 0, "cleanStart": True, "version": ["@v311"]}
+    base.update(kw)
+    return ("connect", [], base, expect)
+
+
+C20_CONNECT = [
+    _conn("accept"), _conn("accept", keepalive=65535), _conn("accept", keepalive=1), _conn("reject", keepalive=-1),
+    _conn("reject", keepalive=65536), _conn("reject", keepalive=2 ** 31),
+    _conn("accept", willTopic="w", willMessage="m", willQoS=0), _conn("accept", willTopic="w", willMessage="m", willQoS=2, willRetain=True),
+    _conn("reject", willTopic="w", willMessage="m", willQoS=3), _conn("reject", willTopic="w", willMessage="m", willQoS=-1),
+    _conn("reject", willQoS=3), _conn("reject", willQoS=-1),
+    _conn("accept", version=["@v31"], clientId="x" * 23), _conn("reject", version=["@v31"], clientId="x" * 24),
+    _conn("accept", version=["@v311"], clientId="x" * 24), _conn("accept", version=["@v31"], clientId=""),
+    _conn("reject", version=0), _conn("reject", version=["@none"]), _conn("reject", version=["@dict", [["level", 5], ["tag", "MQTT"]]]),
+    _conn("reject", version=["@dict", [["level", 4], ["tag", "MQIsdp"]]]),
+    _conn("reject", willTopic="w"), _conn("reject", willMessage="m"),
+    _conn("reject", password="p"), _conn("accept", username="u", password="pñ"), _conn("accept", username="u"),
+    _conn("accept", clientId=_s("a", LONG)), _conn("reject", clientId=_s("a", LONG + 1)),
+    _conn("accept", clientId=_s("€", LONG)), _conn("reject", clientId=_s("€", LONG + 3)),
+    _conn("accept", willTopic=_s("é", LONG), willMessage="m"), _conn("reject", willTopic=_s("é", LONG + 1), willMessage="m"),
+    _conn("accept", willTopic="w", willMessage=_s("m", LONG)), _conn("reject", willTopic="w", willMessage=_s("m", LONG + 1)),
+    _conn("accept", username=_s("u", LONG)), _conn("reject", username=_s("u", LONG + 1)),
+    _conn("accept", username="u", password=_s("p", LONG)), _conn("reject", username="u", password=_s("p", LONG + 1)),
+    _conn("reject", username="u", password=_s("€", LONG + 3)),
+    _conn("reject_any", keepalive="x"), _conn("reject_any", clientId=["@none"]),
+]
+
+C20_PUBLISH = [
+    ("publish", ["t", ["@ba", "6162"]], {"qos": 0}, "accept"), ("publish", ["t", "text-é"], {"qos": 1}, "accept"),
+    ("publish", ["t", ["@ba", ""]], {"qos": 2, "retain": True}, "accept"), ("publish", ["t", "x"], {}, "accept"),
+    ("publish", ["t", "x"], {"qos": 3}, "reject"), ("publish", ["t", "x"], {"qos": -1}, "reject"), ("publish", ["t", ["@ba", "00"]], {"qos": 4}, "reject"),
+    ("publish", ["t", ["@bytes", "6162"]], {"qos": 0}, "reject"), ("publish", ["t", ["@bytes", "6162"]], {"qos": 1}, "reject"),
+    ("publish", ["t", 5], {"qos": 1}, "reject"), ("publish", ["t", ["@float", 1.5]], {"qos": 0}, "reject"),
+    ("publish", ["t", ["@none"]], {"qos": 2}, "reject"), ("publish", ["t", ["@list", [1, 2]]], {"qos": 1}, "reject"),
+    ("publish", [_s("t", LONG), "x"], {"qos": 1}, "accept"), ("publish", [_s("t", LONG + 1), "x"], {"qos": 1}, "reject"),
+    ("publish", [_s("€", LONG), "x"], {"qos": 0}, "accept"), ("publish", [_s("€", LONG + 3), "x"], {"qos": 0}, "reject"),
+    ("publish", [_s("ñ", LONG + 1), ["@ba", "01"]], {"qos": 2}, "reject"),
+    ("publish", [["@none"], "x"], {"qos": 1}, "reject_any"), ("publish", ["t", "x"], {"qos": ["@none"]}, "reject_any"),
+    ("publish", [5, "x"], {"qos": 0}, "reject_any"),
+]
+
+C20_SUBSCRIBE = [
+    ("subscribe", ["a/b"], {"qos": 0}, "accept"), ("subscribe", ["a/b", 2], {}, "accept"), ("subscribe", [["@tuple", ["a/#", 1]]], {}, "accept"),
+    ("subscribe", [["@list", [["@tuple", ["a", 0]], ["@tuple", ["bé", 2]]]]], {}, "accept"),
+    ("subscribe", ["a/b", 3], {}, "reject"), ("subscribe", ["a/b", -1], {}, "reject"), ("subscribe", [["@tuple", ["a", 3]]], {}, "reject"),
+    ("subscribe", [["@list", [["@tuple", ["a", 0]], ["@tuple", ["b", 3]]]]], {}, "reject"),
+    ("subscribe", [["@list", [["@tuple", ["a", -1]]]]], {}, "reject"),
+    ("subscribe", [5], {}, "reject"), ("subscribe", [["@none"]], {}, "reject"), ("subscribe", [["@bytes", "612f62"]], {}, "reject"),
+    ("subscribe", [["@dict", [["a", 1]]]], {}, "reject"), ("subscribe", [["@set", ["a"]]], {}, "reject"),
+    ("subscribe", [_s("t", LONG), 1], {}, "accept"), ("subscribe", [_s("t", LONG + 1), 1], {}, "reject"),
+    ("subscribe", [["@list", [5]]], {}, "reject_any"), ("subscribe", [["@list", [["@tuple", [5, 1]]]]], {}, "reject_any"),
+    ("unsubscribe", ["a/b"], {}, "accept"), ("unsubscribe", [["@list", ["a", "bé"]]], {}, "accept"),
+    ("unsubscribe", [5], {}, "reject"), ("unsubscribe", [["@none"]], {}, "reject"), ("unsubscribe", [["@bytes", "61"]], {}, "reject"),
+    ("unsubscribe", [["@dict", [["a", 1]]]], {}, "reject"), ("unsubscribe", [["@set", ["a"]]], {}, "reject"),
+    ("unsubscribe", [["@tuple", ["a", "b"]]], {}, "reject"),
+    ("unsubscribe", [_s("t", LONG)], {}, "accept"), ("unsubscribe", [_s("t", LONG + 1)], {}, "reject"),
+    ("unsubscribe", [["@list", [5]]], {}, "reject_any"), ("unsubscribe", [["@list", [["@none"]]]], {}, "reject_any"),
+]
+
+
+def _call(row):
+    return ("call", 0, row[0], row[1], row[2], row[3])
+
+
+C20_STATES = {
+    # name -> (setup ops, which tables apply, by profile bit)
+    "idle": ([("build", 0), ("handlers", 0, 7)], ("set", "conn")),
+    "idle_again": ([("build", 0), ("handlers", 0, 7), ("connect", 0, 0, 1, 0), ("rx", 0, "CONNACK", 0, 0), ("lose", 0, 0), ("build", 0), ("handlers", 0, 7)], ("set", "conn")),
+    "connecting": ([("build", 0), ("handlers", 0, 7), ("window", 0, 16), ("connect", 0, 0, 1, 0)], ("set", "pub")),
+    "connected": ([("build", 0), ("handlers", 0, 7), ("window", 0, 16), ("connect", 0, 0, 1, 0), ("rx", 0, "CONNACK", 0, 0)], ("set", "pub", "sub")),
+    "connected_pending": ([("build", 0), ("handlers", 0, 7), ("window", 0, 16), ("connect", 0, 7, 0, 0), ("rx", 0, "CONNACK", 0, 0),
+                           ("publish", 0, 1), ("publish", 0, 2), ("rx", 0, "PUBREC", 0, 0, 0), ("subscribe", 0, 0, 1, 1), ("unsubscribe", 0, 0, 1, 0)],
+                          ("set", "pub", "sub")),
+}
+C20_TABLES = {"set": C20_SETTERS, "conn": C20_CONNECT, "pub": C20_PUBLISH, "sub": C20_SUBSCRIBE}
+C20_SUFFIX = [("publish", 0, 1), ("subscribe", 0, 0, 1, 1), ("settle", 0), ("publish", 0, 2), ("fire", 1), ("settle", 0), ("advance", 5)]
+C20_SUFFIX_IDLE = [("connect", 0, 0, 1, 0), ("rx", 0, "CONNACK", 0, 0), ("publish", 0, 1), ("settle", 0), ("advance", 5)]
+
+
+class C20(SessionProp):
+    id = "C20"
+    monitor = staticmethod(M.mon_c20)
+    rule = ("Tables of (entry point, argument values, verdict): lowest/highest accepted, first rejected on both "
+            "sides, interior, wrong types and None for setWindowSize, setTimeout, setBandwith, every connect() "
+            "argument (incl. strings of exactly 65535 / 65536+ bytes, ASCII and multi-byte), publish(), subscribe() "
+            "in its three shapes and unsubscribe() in two; every row is tried exhaustively in every state and "
+            "profile in which the call is otherwise allowed (idle, idle again, connecting, connected, connected "
+            "with requests pending), and Hypothesis inserts rows at random points of generated histories. Oracle: "
+            "listed-invalid => setters raise ValueError, the others return a Deferred already failed with "
+            "ValueError/TypeError; nothing written, no timer change, protocol.state unchanged, and (twin run) the "
+            "rest of the history behaves exactly as without the rejected call (ids renamed); in-range => accepted. "
+            "Non-trivial = every case with at least one table row (the suite has ~20 of them, none checking "
+            "atomicity); distinct = distinct case hash.")
+
+    def applicable(self, tables, prof):
+        rows = []
+        for t in tables:
+            if t == "pub" and not (prof & 2):
+                continue
+            if t == "sub" and not (prof & 1):
+                continue
+            rows += C20_TABLES[t]
+        return rows
+
+    def check_case(self, case):
+        cfg, ops = case
+        ops = [tup(o) if not (isinstance(o, (list, tuple)) and o and o[0] == "call") else tuple(o) for o in ops]
+        w = sim.run_case(dict(cfg), ops)
+        vd = Verdict()
+        if w.too_big:
+            return vd
+        F = Facts(w)
+        M.mon_c20(w, F, vd)
+        # twin run without the rejected calls
+        rej = [i for i, o in enumerate(ops) if o[0] == "call" and o[5] in ("reject", "reject_any")]
+        if rej:
+            twin_ops = [o for i, o in enumerate(ops) if i not in rej]
+            tw = sim.run_case(dict(cfg), twin_ops)
+            skip = set(r.rid for r in w.reqs if getattr(r, "expect", None) in ("reject", "reject_any"))
+            va = address_view(w, 0, skip_rids=skip)
+            vb = address_view(tw, 0)
+            if va != vb:
+                j = next((k for k in range(min(len(va), len(vb))) if va[k] != vb[k]), min(len(va), len(vb)))
+                vd.bad("C20.rejected_left_trace", "after a rejected call the history differs from the run without it: event %d is %s, without the call %s" % (
+                    j, repr(va[j])[:150] if j < len(va) else "<nothing>", repr(vb[j])[:150] if j < len(vb) else "<nothing>"))
+        return vd
+
+    def strategy(self, tier):
+        def mk(cfg, pre, ws, rows, poss):
+            ops = G.preamble(cfg, dict(pre, window=16)) + T_MIX.decode(ws)
+            allrows = C20_SETTERS + (C20_PUBLISH if cfg["profile"] & 2 else []) + (C20_SUBSCRIBE if cfg["profile"] & 1 else []) + C20_CONNECT
+            for r, pz in zip(rows, poss):
+                ops.insert(pz % (len(ops) + 1), _call(allrows[r % len(allrows)]))
+            return (cfg, ops + [("settle", 0), ("advance", 5)])
+        return st.builds(mk, G.cfg_strategy(), G.pre_strategy(), G.words(20), st.lists(st.integers(0, 10 ** 6), min_size=1, max_size=4),
+                         st.lists(st.integers(0, 10 ** 6), min_size=4, max_size=4))
+
+    def exhaustive_specs(self, tier, seed):
+        return [("table", p, v, name) for p in (1, 2, 3) for v in (4, 3) for name in C20_STATES]
+
+    def run_exhaustive(self, spec, res):
+        _, p, v, name = spec
+        cfg = dict(profile=p, version=v, jitter=0.25)
+        setup, tables = C20_STATES[name]
+        rows = self.applicable(tables, p)
+        n = 0
+        for row in rows:
+            suffix = C20_SUFFIX_IDLE if name.startswith("idle") else C20_SUFFIX
+            if row[0] == "connect" and row[3] == "accept":
+                suffix = [("rx", 0, "CONNACK", 0, 0), ("advance", 5)]
+            ops = list(setup) + [_call(row)] + list(suffix)
+            case = (cfg, ops)
+            res.add("exhaustive:table", case, self.check_case(case))
+            n += 1
+        res.exhaustive["table/profile%d/v%d/%s" % (p, v, name)] = n
+        return res
+
+
+# ====================================================================== C16
+
+C16_STATES = [
+    ("connecting", [("build", 0), ("handlers", 0, 7), ("window", 0, 4), ("connect", 0, 0, 1, 0), ("publish", 0, 1)]),
+    ("connected", [("build", 0), ("handlers", 0, 7), ("window", 0, 4), ("connect", 0, 7, 1, 0), ("rx", 0, "CONNACK", 0, 0),
+                   ("publish", 0, 1), ("publish", 0, 2), ("rx", 0, "PUBREC", 0, 0, 0), ("publish", 0, 2), ("subscribe", 0, 0, 1, 1),
+                   ("unsubscribe", 0, 0, 1, 0), ("rx", 0, "PUBLISH", 2, 0, 1)]),
+    ("connected_persistent", [("build", 0), ("handlers", 0, 7), ("window", 0, 4), ("connect", 0, 0, 0, 0), ("rx", 0, "CONNACK", 0, 1),
+                              ("publish", 0, 2), ("rx", 0, "PUBREC", 0, 0, 0), ("publish", 0, 1), ("subscribe", 0, 2, 2, 6), ("rx", 0, "PUBLISH", 2, 0, 2)]),
+]
+C16_TAIL = [("lose", 0, 1), ("idle", 60.0)]
+_POOLS = {}
+
+
+def c16_pool(profile, version, state_i):
+    """valid broker packets that mean something in the given state (ids read from a dry run of the setup)"""
+    key = (profile, version, state_i)
+    if key in _POOLS:
+        return _POOLS[key]
+    from . import refcodec as R
+    cfg = dict(profile=profile, version=version, jitter=0.25, rude=True)
+    w = sim.run_case(cfg, C16_STATES[state_i][1])
+    conn = w.conns[0]
+    ver = version
+    pool = [R.ref_encode("CONNACK", dict(session_present=False, code=0), ver), R.ref_encode("CONNACK", dict(session_present=True, code=5), ver),
+            R.ref_encode("PINGRESP", {}, ver)]
+    for i in (conn.b_q1[:1] or [11]):
+        pool.append(R.ref_encode("PUBACK", dict(id=i), ver))
+    for i in (conn.b_q2[:1] or [12]):
+        pool.append(R.ref_encode("PUBREC", dict(id=i), ver))
+    for i in (conn.b_rel[:1] or [13]):
+        pool.append(R.ref_encode("PUBCOMP", dict(id=i), ver))
+    for i in (list(conn.b_sub)[:1] or [14]):
+        pool.append(R.ref_encode("SUBACK", dict(id=i, codes=[1, 0x80]), ver))
+    for i in (conn.b_unsub[:1] or [15]):
+        pool.append(R.ref_encode("UNSUBACK", dict(id=i), ver))
+    for i in (list(w.in_q2[0])[:1] or [1]):
+        pool.append(R.ref_encode("PUBREL", dict(id=i), ver))
+    pool.append(R.ref_encode("PUBLISH", dict(topic="a/b", payload=b"hi", qos=0, dup=False, retain=False, id=None), ver))
+    pool.append(R.ref_encode("PUBLISH", dict(topic="t/é", payload=b"hello", qos=1, dup=False, retain=True, id=7), ver))
+    pool.append(R.ref_encode("PUBLISH", dict(topic="x", payload=b"", qos=2, dup=True, retain=False, id=9), ver))
+    pool.append(R.ref_encode("PUBLISH", dict(topic="big", payload=b"z" * 200, qos=1, dup=False, retain=False, id=8), ver))
+    _POOLS[key] = pool
+    return pool
+
+
+def mutations(pkt):
+    """single-byte replacements, truncations (with and without a fixed length byte), extensions"""
+    out = []
+    for i in range(len(pkt)):
+        for v in (0x00, 0xFF, pkt[i] ^ 0x01, pkt[i] ^ 0x80):
+            if v != pkt[i]:
+                out.append(pkt[:i] + bytes([v]) + pkt[i + 1:])
+    if len(pkt) < 128:
+        for n in range(1, len(pkt)):
+            out.append(pkt[:n])                                  # truncated, length field untouched (incomplete)
+            if n >= 2:
+                out.append(pkt[:1] + bytes([n - 2]) + pkt[2:n])     # truncated with the length fixed
+        for ext in (b"\x00", b"\xff\xff", b"\x00\x01\x02"):
+            out.append(pkt[:1] + bytes([len(pkt) - 2 + len(ext)]) + pkt[2:] + ext)   # extended, length fixed
+            out.append(pkt + ext)                                 # extended, next frame is junk
+    return out
+
+
+class C16(SessionProp):
+    id = "C16"
+    monitor = staticmethod(M.mon_c16)
+    profiles = (1, 2, 3)
+    rule = ("Frames injected into 3 profiles x {connecting, connected clean, connected persistent} with publishes in "
+            "every stage, a subscribe, an unsubscribe and an inbound QoS 2 message pending; then the connection is "
+            "lost and an idle tail runs. Exhaustive: every first byte 0..255 x every body of length 0..3 (thorough "
+            "0..4) over {00,01,02,7F,80,FF} with a correct length byte, and with the length byte itself drawn from "
+            "the alphabet; every packet of a pool of ~13 valid broker packets with each byte replaced by 00/FF/^01/"
+            "^80, truncated at every length with and without fixing the length, extended by 1..3 bytes. Generated: "
+            "streams mixing valid packets, mutated packets and random bytes with timer expiries and acks. Oracle: no "
+            "exception out of dataReceived/connectionLost/timers; the only transport reaction is abortConnection; "
+            "frames the strict reference decoder calls hard-malformed (truncated, overrunning, invalid UTF-8, QoS 3, "
+            "reserved or broker-bound types) cause no onPublish, no Deferred success and no write; after the loss of "
+            "a clean session nothing stays pending. Non-trivial = a hard-malformed frame or an unsolicited ack "
+            "injected with at least one request pending.")
+
+    def frame_case(self, cfg, state_i, frame):
+        return (cfg, list(C16_STATES[state_i][1]) + [("raw", 0, frame.hex())] + C16_TAIL)
+
+    def strategy(self, tier):
+        def mk(cfg, state_i, items, ws):
+            pool = c16_pool(cfg["profile"], cfg["version"], state_i)
+            ops = list(C16_STATES[state_i][1])
+            extra = T_MIX.decode(ws)
+            for kind, x, y, z in items:
+                if kind == 0:
+                    fr = pool[x % len(pool)]
+                elif kind == 1:
+                    m = mutations(pool[x % len(pool)])
+                    fr = m[y % len(m)]
+                elif kind == 2:
+                    fr = bytes([x, len(z) & 0x7F]) + z
+                else:
+                    fr = z
+                ops.append(("raw", 0, fr.hex()))
+                if extra and (y & 3) == 0:
+                    ops.append(extra.pop())
+            return (cfg, ops + C16_TAIL)
+        items = st.lists(st.tuples(st.integers(0, 3), st.integers(0, 255), st.integers(0, 10 ** 6), st.binary(max_size=12)), min_size=1, max_size=5)
+        return st.builds(mk, rude_cfg(), st.integers(0, len(C16_STATES) - 1), items, G.words(4))
+
+    ALPHA = [0x00, 0x01, 0x02, 0x7F, 0x80, 0xFF]
+
+    def exhaustive_specs(self, tier, seed):
+        specs = []
+        for p in (1, 2, 3):
+            for si in range(len(C16_STATES)):
+                for lo in range(0, 256, 32):
+                    # quick: bodies up to 2 bytes everywhere and up to 3 on the pub/sub profile, connected clean
+                    ml = (3 if (p == 3 and si == 1) else 2) if tier == "quick" else 4
+                    specs.append(("bytes", p, si, lo, lo + 32, ml))
+                specs.append(("mut", p, si, 4 if (p + si) % 2 else 3))
+        return specs
+
+    def run_exhaustive(self, spec, res):
+        if spec[0] == "bytes":
+            _, p, si, lo, hi, maxlen = spec
+            cfg = dict(profile=p, version=4, jitter=0.25, rude=True)
+            n = 0
+            for b0 in range(lo, hi):
+                for ln in range(0, maxlen + 1):
+                    for body in itertools.product(self.ALPHA, repeat=ln):
+                        fr = bytes([b0, ln]) + bytes(body)
+                        case = self.frame_case(cfg, si, fr)
+                        res.add("exhaustive:short_frames", case, self.check_case(case))
+                        n += 1
+                        if ln >= 1 and ln <= 2:
+                            # the length byte itself from the alphabet
+                            for lb in self.ALPHA:
+                                if lb != ln:
+                                    fr2 = bytes([b0, lb]) + bytes(body)
+                                    case = self.frame_case(cfg, si, fr2)
+                                    res.add("exhaustive:short_frames_bad_length", case, self.check_case(case))
+                                    n += 1
+            res.exhaustive["short/profile%d/%s/%02x-%02x" % (p, C16_STATES[si][0], lo, hi - 1)] = n
+            return res
+        _, p, si, v = spec
+        cfg = dict(profile=p, version=v, jitter=0.25, rude=True)
+        n = 0
+        for pkt in c16_pool(p, v, si):
+            for fr in mutations(pkt):
+                case = self.frame_case(cfg, si, fr)
+                res.add("exhaustive:mutations", case, self.check_case(case))
+                n += 1
+        res.exhaustive["mutations/profile%d/%s/v%d" % (p, C16_STATES[si][0], v)] = n
+        return res
+
+
 PROPS = {}
 PROPS_BY_ID = {}
 
@@ -1312,3 +1741,6 @@ _reg(C12)
 _reg(C17)
 _reg(C19)
 _reg(C03)
+_reg(C14)
+_reg(C20)
+_reg(C16)
